@@ -71,8 +71,13 @@ def concretize(prop, ob):
     if name.startswith("main/store_object/arg:object_size"):
         out.append(("client_cli", {"argv": ["-storeobject", "-pid=cli-pid", "-path={data}",
                                             "-obj_size={size}"], "expect_bound": "cli-pid"}))
+    if "temporary-files-only-in-tmp-areas" in name:
+        out.append(("race_slow_store_meta", {}))
     if "directories-are-never-removed" in name:
         out.append(("race_store_meta_delete_all", {}))
+    if short_name(fn) in ("_build_hashstore_data_object_path", "_get_hashstore_cid_refs_path",
+                          "_get_hashstore_data_object_path", "_delete_object_only"):
+        out.append(("uppercase_cid", {}))
     if short_name(fn) in ("_computehash", "_get_hashstore_pid_refs_path", "_check_string") \
             or "path/" in name:
         out.append(("identifier_pool", {}))
@@ -181,7 +186,7 @@ def _canon(sp):
     return None
 
 
-CHEAP = {"store_with_cwd_decoy", "identifier_pool", "digest_history", "store_roundtrip", "pure_call", "refs_helper_pool",
+CHEAP = {"uppercase_cid", "store_with_cwd_decoy", "identifier_pool", "digest_history", "store_roundtrip", "pure_call", "refs_helper_pool",
          "digest_keys_independent", "observe_steps"}
 
 
@@ -200,7 +205,8 @@ def _model_cfg(model):
 
 def replay_refutation(prop, ob, bad, root):
     key = hashlib.sha256((prop + ob["name"] + str(ob.get("site"))).encode()).hexdigest()[:12]
-    path = os.path.join(root, "replays", f"{prop}-{key}.json")
+    path = os.path.join(os.environ.get("VERIF_REPLAY_DIR") or os.path.join(root, "replays"),
+                        f"{prop}-{key}.json")
     sc = {"property": prop, "obligation": ob["name"], "site": ob.get("site"),
           "detail": ob.get("detail"), "job": ob.get("job"),
           "solver": {"backend": "z3", "result": "sat", "model": ob.get("model"),
